@@ -114,6 +114,20 @@ def effect_census(ctx: Ctx, only_reachable_from_mutate: bool = False) -> None:
             continue
         ctx.expect("R-EFFECT", f, f"write effect: {src(c.func, 40)}({why})", f.fq == MUTATE, why,
                    f"{f.fq} has a filesystem write effect ({why}); only mutate may write, and only its backup and output targets", node=c)
+    # the forwarding wrappers really forward: every parameter of the wrapper reaches the wrapped open()
+    for wfq in OPEN_WRAPPERS:
+        wf = ctx.p.functions.get(wfq)
+        if wf is None:
+            continue
+        oc = [c for c in calls(wf) if is_open_call(ctx, wf, c)]
+        if len(oc) != 1:
+            continue
+        c = oc[0]
+        passed = {n.id for a in list(c.args) + [k.value for k in c.keywords] for n in ast.walk(inline(a.value if isinstance(a, ast.Starred) else a, wf)) if isinstance(n, ast.Name)}
+        params = [q for q in wf.param_names()[1:]] + ([wf.node.args.vararg.arg] if wf.node.args.vararg else []) + ([wf.node.args.kwarg.arg] if wf.node.args.kwarg else [])
+        missing = [q for q in params if q not in passed]
+        ctx.expect("R-FWD", wf, f"{wf.qualname} forwards every argument to the wrapped open()", not missing, "", f"{missing} never reach {src(c.func, 30)}(): an option the caller relies on "
+                   "(e.g. errors=, checked by mutate before it truncates the file) is silently dropped on the native filesystem", node=c)
     in_mutate = [e for e in effs if e[0].fq == MUTATE]
     ctx.expect("R-EFFECT", ctx.p.func(MUTATE), "mutate has exactly two write sites", len(in_mutate) == 2, f"{len(in_mutate)}",
                f"mutate has {len(in_mutate)} write-effect call sites: {[src(c, 60) for _, c, _ in in_mutate]}", node=ctx.p.func(MUTATE).node)
